@@ -46,6 +46,18 @@ func init() {
 	}
 }
 
+// NewResolverRaw is for a schema that was parsed from a complete file (its own builtin wrappers and containers included).
+func NewResolverRaw(s *schemagen.Schema) *Resolver {
+	r := &Resolver{byCtor: map[string]*schemagen.Comb{}, byType: map[string][]*schemagen.Comb{}}
+	for _, c := range s.Combs {
+		r.byCtor[c.Name] = c
+		if !c.IsFunc {
+			r.byType[c.ResultType] = append(r.byType[c.ResultType], c)
+		}
+	}
+	return r
+}
+
 func NewResolver(s *schemagen.Schema) *Resolver {
 	r := &Resolver{byCtor: map[string]*schemagen.Comb{}, byType: map[string][]*schemagen.Comb{}}
 	for _, c := range append(append([]*schemagen.Comb{}, preludeCombs...), s.Combs...) {
@@ -598,6 +610,13 @@ func (r *Rand) Next() uint64 {
 }
 func (r *Rand) Intn(n int) int { return int(r.Next() % uint64(n)) }
 
+var intEdges = []int64{0, 0, 1, -1, 255, 256, 2147483647, -2147483648, 4294967295, 9007199254740993, -9223372036854775808, 9223372036854775807}
+
+// no negative zero and no NaN payloads: the JSON form of the former is read back as +0 by design of the empty-value
+// optimisation (known finding F24 is about the writer), the latter cannot be carried by the documented string "NaN"
+var f32Edges = []uint32{0, 0, math.Float32bits(1), math.Float32bits(-1.5), math.Float32bits(0.1), math.Float32bits(16777216), math.Float32bits(math.MaxFloat32), math.Float32bits(math.SmallestNonzeroFloat32), 0x7f800000, 0xff800000, 0x7fc00000}
+var f64Edges = []uint64{0, 0, math.Float64bits(1), math.Float64bits(-2.25), math.Float64bits(0.1), math.Float64bits(9007199254740993), math.Float64bits(math.MaxFloat64), math.Float64bits(math.SmallestNonzeroFloat64), 0x7ff0000000000000, 0xfff0000000000000, 0x7ff8000000000001}
+
 var strEdges = [][]byte{nil, []byte("a"), []byte("ab"), []byte("abc"), []byte("abcd"), []byte("\x00\xff"), []byte("ключ"), []byte(strings.Repeat("x", 253)), []byte(strings.Repeat("y", 254)), []byte(strings.Repeat("z", 300))}
 
 // MeaningfulBits returns the bits of nat source `name` (a # field or # parameter of c) that the schema gives meaning to:
@@ -719,12 +738,24 @@ func (r *Resolver) Gen(rnd *Rand, t schemagen.TypeExpr, depth int) (*Value, erro
 		case "#":
 			return &Value{Kind: "nat", U: uint64(rnd.Intn(4))}, nil
 		case "int":
+			if rnd.Intn(4) == 0 {
+				return &Value{Kind: "int", U: uint64(uint32(intEdges[rnd.Intn(len(intEdges))]))}, nil
+			}
 			return &Value{Kind: "int", U: uint64(uint32(rnd.Next()))}, nil
 		case "float":
+			if rnd.Intn(4) == 0 {
+				return &Value{Kind: "float", U: uint64(f32Edges[rnd.Intn(len(f32Edges))])}, nil
+			}
 			return &Value{Kind: "float", U: uint64(math.Float32bits(float32(rnd.Intn(1000)) / 8))}, nil
 		case "long":
+			if rnd.Intn(4) == 0 {
+				return &Value{Kind: "long", U: uint64(intEdges[rnd.Intn(len(intEdges))])}, nil
+			}
 			return &Value{Kind: "long", U: rnd.Next()}, nil
 		case "double":
+			if rnd.Intn(4) == 0 {
+				return &Value{Kind: "double", U: f64Edges[rnd.Intn(len(f64Edges))]}, nil
+			}
 			return &Value{Kind: "double", U: math.Float64bits(float64(rnd.Intn(100000)) / 16)}, nil
 		case "string":
 			if rnd.Intn(3) == 0 {
